@@ -7,6 +7,9 @@ CHECKS = {
  "C01": dict(cat="exploration", tech="runtime differential monitor: generator-owned expectation vs ParseLine and vs the line a handler receives over an in-memory connection",
    text="Every generated well-formed message (exhaustive product over small component pools + PRNG grammar) is parsed by the real ParseLine and, for a sample, pushed through a live in-memory connection; the result is compared field by field with an expectation derived from the components alone. Held on the messages explored; the grammar is infinite so this is sampling beyond the exhaustive product.",
    note="Trusted: the generator's reading of 'well-formed' (RFC 2812 2.3.1 + IRCv3 tags as delimited by the property's quantifier); the in-memory net.Conn handed over through cfg.Proxy.", ref="§4 C01"),
+ "C02": dict(cat="exploration", tech="crash journal over child processes + marker round trip + rejected-xor-dispatched log oracle; exhaustive short strings, PRNG mutation",
+   text="Stage A runs ParseLine and Text/Target/Public under recover on every string up to a length bound over the special-byte/verb-token alphabet and on PRNG mutations of well-formed lines; stage B feeds hostile probes (every built-in handler verb with odd parameters, raw bytes) through live connections in child processes, tracking on and off, and checks process survival, that a marker sent afterwards is answered, that following numbered lines arrive in order, and that each probe was either logged as rejected or dispatched exactly once. Held on the inputs explored; exhaustive only up to the stated length.",
+   note="Trusted: the crash journal's attribution of a dead worker to the case in flight; a handler panic swallowed by cfg.Recover is by the statement not a violation.", ref="§4 C02"),
 }
 
 NOT_BUILT = "check not built yet in this round (planned, see DESIGN.md §4)"
